@@ -25,6 +25,7 @@ Occurs(out, exp) == FindFrom(out, exp, 1) # 0
 
 Ident(s) == <<"i", s, "*">>
 Dot == <<"p", ".", "*">>
+Lit(s) == <<"l", s, "*">>
 Colon2 == <<<<"p", ":", "*">>, <<"p", ":", "*">>>>
 PathOf(ms) == [i \in 1..(2 * Len(ms)) |-> IF i % 2 = 1 THEN Dot ELSE Ident(ms[i \div 2])]
 
@@ -35,8 +36,11 @@ TildeFor(pos, conv) ==
   CASE pos = "member_ren"   -> IF conv = "from" THEN AtFor(conv) \o PathOf(<<"rx">>) ELSE AtFor(conv) \o PathOf(<<"s1">>)
     [] pos = "member"       -> AtFor(conv) \o PathOf(<<"s1">>)
     [] pos = "member_child" -> IF conv = "from" THEN AtFor(conv) \o PathOf(<<"p", "q", "rx">>) ELSE AtFor(conv) \o PathOf(<<"s1">>)
+    \* a named struct whose counterpart is hinted `as ()`: From reads the counterpart by position; a tuple struct: both sides by position
+    [] pos = "member_hint_t" -> IF conv = "from" THEN AtFor(conv) \o <<Dot, Lit("1")>> ELSE AtFor(conv) \o PathOf(<<"s1">>)
+    [] pos = "member_tuple" -> AtFor(conv) \o <<Dot, Lit("1")>>
     [] pos = "payload"      -> <<Ident("f0")>>
     [] pos = "variant_expr" -> IF conv = "from" THEN <<Ident("S")>> \o Colon2 \o <<Ident("V1")>> ELSE <<Ident("D")>> \o Colon2 \o <<Ident("V1")>>
     [] OTHER                -> <<<<"?", "tilde is not defined in this position", "*">>>>
-TildeDefined(pos) == pos \in {"member_ren", "member", "member_child", "payload", "variant_expr"}
+TildeDefined(pos) == pos \in {"member_ren", "member", "member_child", "member_hint_t", "member_tuple", "payload", "variant_expr"}
 =============================================================================
